@@ -13,7 +13,7 @@ def run(chk, replay=None):
     if replay and replay["event"].get("op") in ("run", "clscli"):     # a failing case of the stage "cls-proto" / "cls-cli"
         cls_stages(chk, thorough, replay)
         return
-    if os.environ.get("VERIF_C18_ONLY") == "cls":                      # development: only the added stages
+    if os.environ.get("VERIF_C18_ONLY") in ("cls", "clsv"):          # clsv: without the models                      # development: only the added stages
         cls_stages(chk, thorough, None)
         chk.rule = "stage cls-proto / cls-cli only (VERIF_C18_ONLY=cls)"
         return
@@ -141,9 +141,9 @@ def run(chk, replay=None):
 # ---------------------------------------------------------------------------------------------------------------------
 # growth item: the class-group sieve's concurrent protocol (ClsProto.tla) and the ymcls command line (ClsCli.tla)
 # ---------------------------------------------------------------------------------------------------------------------
-CLS_HOLD = ["MC_ClsProto_par.cfg", "MC_ClsProto_par2.cfg", "MC_ClsProto_early.cfg", "MC_ClsProto_abort.cfg", "MC_ClsProto_seq.cfg",
-            "MC_ClsProto_short.cfg", "MC_ClsProto_live.cfg", "MC_ClsProto_abort_live.cfg"]
-CLS_HOLD_THOROUGH = ["MC_ClsProto_w3.cfg", "MC_ClsProto_par_big.cfg"]
+CLS_HOLD = ["MC_ClsProto_par.cfg", "MC_ClsProto_par2.cfg", "MC_ClsProto_abort.cfg", "MC_ClsProto_seq.cfg", "MC_ClsProto_live.cfg"]
+CLS_HOLD_THOROUGH = ["MC_ClsProto_early.cfg", "MC_ClsProto_short.cfg", "MC_ClsProto_abort_live.cfg", "MC_ClsProto_w3.cfg", "MC_ClsProto_par_big.cfg"]
+CLS_EXPECT_THOROUGH_ONLY = {"MC_ClsProto_reach_panic.cfg", "MC_ClsCli_reach_libfail.cfg"}
 # reachability / non-vacuity / documented hazards: the invariant named is expected to be VIOLATED
 CLS_EXPECT = {
     "MC_ClsProto_nolock.cfg": ("NoLostInsert", "model mutation: inserts without the write lock lose relations"),
@@ -169,13 +169,31 @@ CLS_CODES = {1: "c_stage", 3: "c_task", 4: "c_task_skip", 5: "c_pre_poll", 6: "p
              26: "c_linalg", 27: "call", 28: "returned"}
 
 
-def _expect(chk, module, table, workers=1):
-    for cfg, (inv, what) in table.items():
-        r = core.model_check(module, cfg, workers=workers, timeout=900, expect_error=True)
-        chk.add_mc(r, invariants_expected_to_hold=False)
-        if inv not in r["violated"]:
-            raise core.ToolError("model %s: expected TLC to reach a violation of %s" % (cfg, inv))
-        chk.notes.append({"model": cfg, "violates_as_expected": inv, "meaning": what})
+def _cls_models(chk, thorough):
+    """all configs of ClsProto / ClsCli, a few JVMs at a time"""
+    import concurrent.futures as cf
+    hold = [("classgroup/ClsProtoMC.tla", c) for c in CLS_HOLD + (CLS_HOLD_THOROUGH if thorough else [])]
+    hold.append(("classgroup/ClsCli.tla", "MC_ClsCli.cfg"))
+    expect = {}
+    for c, v in CLS_EXPECT.items():
+        if thorough or c not in CLS_EXPECT_THOROUGH_ONLY:
+            expect[("classgroup/ClsProtoMC.tla", c)] = v
+    for c, v in CLSCLI_EXPECT.items():
+        expect[("classgroup/ClsCli.tla", c)] = v
+
+    def mc(mcfg):
+        return core.model_check(mcfg[0], mcfg[1], workers=1, timeout=1500, expect_error=mcfg in expect)
+    jobs = hold + list(expect)
+    with cf.ThreadPoolExecutor(max_workers=max(1, core.NCPU // 2)) as ex:
+        for mcfg, r in zip(jobs, ex.map(mc, jobs)):
+            if mcfg in expect:
+                inv, what = expect[mcfg]
+                chk.add_mc(r, invariants_expected_to_hold=False)
+                if inv not in r["violated"]:
+                    raise core.ToolError("model %s: expected TLC to reach a violation of %s" % (mcfg[1], inv))
+                chk.notes.append({"model": mcfg[1], "violates_as_expected": inv, "meaning": what})
+            else:
+                chk.add_mc(r)
 
 
 def cls_stages(chk, thorough, replay):
@@ -183,12 +201,8 @@ def cls_stages(chk, thorough, replay):
     w = core.workdir("c18", "cls")
     rop = replay["event"].get("op") if replay else None
     # (M) the protocol with the real store model inside, and the command-line layer
-    if not replay:
-        for cfg in CLS_HOLD + (CLS_HOLD_THOROUGH if thorough else []):
-            chk.add_mc(core.model_check("classgroup/ClsProtoMC.tla", cfg, workers=2, timeout=1500))
-        _expect(chk, "classgroup/ClsProtoMC.tla", CLS_EXPECT)
-        chk.add_mc(core.model_check("classgroup/ClsCli.tla", "MC_ClsCli.cfg", workers=1, timeout=300))
-        _expect(chk, "classgroup/ClsCli.tla", CLSCLI_EXPECT)
+    if not replay and os.environ.get("VERIF_C18_ONLY") != "clsv":
+        _cls_models(chk, thorough)
     # (V) runs of classgroup() with pools of 1, 2, 3, 4, 8 threads under schedule perturbation
     if rop in (None, "run"):
         extra = ["--only", replay["event"]["case"]] if replay else []
